@@ -169,6 +169,10 @@ func check(c Case) error {
 		_, _, _ = primers.SantaLucia(c.Prior, 500e-9, 50e-3, 0)
 		_ = primers.MarmurDoty(c.Prior)
 	}
+	// the steps of growing the oligo base by base (primer design does that), ending with the one that lacks only the last base
+	for _, st := range vk.Stems(upper) {
+		_ = primers.MeltingTemp(st)
+	}
 	// Marmur-Doty
 	at := strings.Count(upper, "A") + strings.Count(upper, "T")
 	gc := strings.Count(upper, "G") + strings.Count(upper, "C")
